@@ -69,3 +69,54 @@ Definition all_explicit_drops : bool := forallb l_explicit_drop lock_extents.
 (* the graph sees something: tree-bin writers do reach the tree lock from inside an extent *)
 Definition extents_reach_tree_lock : bool :=
   existsb (fun e => existsb (fun b => mem (fst b) tree_lock_fns) (ext_blocking e)) lock_extents.
+
+(* ---------- the tree-bin write lock: who may write tree links with Relaxed ordering ----------
+   (the C15 discipline "UnderTreeWriteLock" and C11's exclusion theorem assume it)
+   - a function that calls lock_root() performs every Relaxed store to node.rs cells between its
+     lock_root() and its unlock_root();
+   - the restructuring helpers (balance_insertion / balance_deletion / rotate_left / rotate_right)
+     are only called from there, or from each other, or from TreeBin::new, which builds a tree
+     nobody else can see yet. *)
+Definition tree_helpers : list string := ["balance_insertion"; "balance_deletion"; "rotate_left"; "rotate_right"].
+Definition private_builders : list string := ["new"].
+
+Definition in_extent (f : treelockfn) (l : N) : bool :=
+  existsb (fun lo => existsb (fun hi => (lo <? l)%N && (l <? hi)%N) (tl_unlocks f)) (tl_locks f).
+Definition find_tl (fn : string) : option treelockfn := find (fun f => tl_fn f =? fn) tree_lock_fns_tbl.
+Definition is_locker (f : treelockfn) : bool := match tl_locks f with [] => false | _ => true end.
+
+(* Relaxed stores in functions that take the write lock themselves lie inside the lock *)
+Definition store_ok (s : string * N * string) : bool :=
+  let '(fn, l, _) := s in
+  match find_tl fn with
+  | Some f => if is_locker f then in_extent f l else true
+  | None => true
+  end.
+Definition relaxed_stores_inside_write_lock : bool := forallb store_ok relaxed_stores_node_rs.
+Definition stores_outside_write_lock : list (string * N * string) :=
+  filter (fun s => negb (store_ok s)) relaxed_stores_node_rs.
+
+(* every other function with a Relaxed store is a helper or a private builder *)
+Definition store_fn_ok (s : string * N * string) : bool :=
+  let '(fn, _, _) := s in
+  match find_tl fn with
+  | Some f => is_locker f || mem fn tree_helpers || mem fn private_builders
+  | None => mem fn tree_helpers || mem fn private_builders
+  end.
+Definition relaxed_stores_only_in_known_functions : bool := forallb store_fn_ok relaxed_stores_node_rs.
+
+(* helper calls: from inside an extent of a locker, from a helper, or from a private builder *)
+Definition helper_calls_ok (f : treelockfn) : bool :=
+  forallb (fun c => if is_locker f then in_extent f (snd c)
+                    else mem (tl_fn f) tree_helpers || mem (tl_fn f) private_builders) (tl_helpers f).
+Definition helpers_called_under_write_lock : bool := forallb helper_calls_ok tree_lock_fns_tbl.
+
+(* one lock_root and one unlock_root per locker, in this order (so that "between" means held) *)
+Definition lockers_well_bracketed : bool :=
+  forallb (fun f => if is_locker f
+                    then match tl_locks f, tl_unlocks f with
+                         | [lo], [hi] => (lo <? hi)%N
+                         | _, _ => false
+                         end
+                    else match tl_unlocks f with [] => true | _ => false end) tree_lock_fns_tbl.
+Definition lockers_exist : bool := existsb is_locker tree_lock_fns_tbl.
